@@ -758,7 +758,10 @@ func (fv *funcVerifier) newEnv(cur, old *State) *specEnv {
 // setupSpec binds the function's own contract.
 func (fv *funcVerifier) setupSpec(st *State) {
 	fv.spec = fv.prog.Specs.Funcs[fv.fi.Key]
-	if fv.spec != nil && fv.spec.Mode == "seq" {
+	if fv.spec != nil && strings.Contains(fv.spec.Mode, "goinline") {
+		fv.opt.GoInline = true
+	}
+	if fv.spec != nil && strings.Contains(fv.spec.Mode, "seq") {
 		// "mode seq": the objects this function calls into are reachable only
 		// through a lock this function holds (or it runs before any other thread
 		// exists), so locked(e) in a callee's contract denotes the pre-call state.
@@ -825,6 +828,16 @@ func (fv *funcVerifier) finishExits() {
 		return
 	}
 	env := fv.ownEnv(exit)
+	// function-level locals that are live at every exit may be mentioned in postconditions
+	// (parameters keep denoting their entry values)
+	for v, t := range exit.vars {
+		if v.Name() == "" || v.Name() == "_" || fv.isParam(v) || fv.boxed[v] || fv.volatile[v] {
+			continue
+		}
+		if _, taken := env.vars[v.Name()]; !taken {
+			env.vars[v.Name()] = sval{t, v.Type()}
+		}
+	}
 	names := resultNames(fv.sig)
 	for i, rv := range fv.results {
 		var t smt.Term
